@@ -67,6 +67,35 @@ def _name_site(F, fn_path, callee_suffix, argi):
     return None
 
 
+def _pat_ids(p):
+    return {x.get("id") for x in walk(p) if isinstance(x, dict) and x.get("k") == "bind"}
+
+
+def _mentions_helpers(n):
+    return any((x.get("k") == "field" and x.get("name") == "helpers") or (x.get("k") in ("var", "upvar") and x.get("name") == "helpers") for x in walk(n))
+
+
+def _key_of_helpers(F, fn_path, var_id):
+    """is the variable bound by iterating over the helper table (`for (k, _) in helpers.iter()`, `for k in helpers.keys()`,
+    or the parameter of a closure mapped over such an iterator)?"""
+    fn = F.fns.get(fn_path)
+    if not fn or not fn.get("thir"):
+        return False
+    body = fn["thir"]["body"]
+    for m in walk(body):
+        if m.get("k") == "match" and strip(m["scrut"]).get("k") == "call" and (callee_path(strip(m["scrut"])) or "").endswith("into_iter") \
+                and _mentions_helpers(m["scrut"]):
+            inner = [a["pat"] for x in walk(m["arms"]) if x.get("k") == "match" for a in x["arms"]]
+            if any(var_id in _pat_ids(p) for p in inner):
+                return True
+    for pth, f2 in F.fns.items():
+        if pth.startswith(fn_path + "::{closure") and f2.get("thir") and any(var_id in _pat_ids(q.get("pat") or {}) for q in f2["thir"]["params"]):
+            for c in walk(body):
+                if c.get("k") == "call" and _mentions_helpers(c) and any(x.get("k") == "closure" and x.get("path") == pth for x in walk(c)):
+                    return True
+    return False
+
+
 def register_rules(rep, cx):
     """R08.r: register_helper(k, f) files f under k (replacing an earlier registration)"""
     F = cx.F
@@ -106,9 +135,11 @@ def helper_symbol_rules(rep, cc):
     rep.ob(rk, "template", reg_site is not None and dec_site is not None and norm(reg_site["template"]) == norm(dec_site["template"]),
            "format template of the helper symbol name at registration and at import declaration",
            expected="identical templates", found=[reg_site and reg_site["template"], dec_site and dec_site["template"]])
-    rep.ob(rk, "argument", reg_site is not None and dec_site is not None and len(reg_site["args"]) == 1 and reg_site["args"] == dec_site["args"]
-           and reg_site["args"][0][1] in ("&u32", "u32"),
-           "argument formatted into the name", expected="the helper key (&u32) at both sites", found=[reg_site and reg_site["args"], dec_site and dec_site["args"]])
+    def keyed(site, fn_path):
+        return site is not None and len(site["args"]) == 1 and site["args"][0][1] in ("&u32", "u32") and _key_of_helpers(cc.F, fn_path, site["arg_ids"][0])
+    rep.ob(rk, "argument", keyed(reg_site, "cranelift::CraneliftCompiler::new") and keyed(dec_site, "cranelift::CraneliftCompiler::build_function_prelude"),
+           "argument formatted into the name", expected="at both sites the one argument is the key (u32) bound by iterating over the helper table",
+           found=[reg_site and reg_site["args"], dec_site and dec_site["args"]])
     ins = None
     fnp = cc.F.fns.get("cranelift::CraneliftCompiler::build_function_prelude")
     if fnp and dec_site:
